@@ -87,7 +87,19 @@ class SimFile:
     def close(self):
         if self._real.closed:
             return
-        self._st.ctl.file_op(self, 'close')
+        try:
+            self._st.ctl.file_op(self, 'close')
+        except Exception:
+            # an injected close() failure: what was still buffered is lost and the descriptor is gone - the
+            # real object must not flush its buffer into the file at some later garbage collection
+            self.lose_buffers(False)
+            try:
+                self._real.close()
+            except Exception:
+                pass
+            self.closed_by_sim = True
+            self._st.ctl.file_closed(self)
+            raise
         try:
             self._real.close()
         finally:
